@@ -315,6 +315,21 @@ var nmConstructs = []string{
 	"y := (1 + 2) * 3 - 4 / 2 % 2", "y := 1 < 2 && 2 >= 1 || !b", "y := \"a\" + \"b\" == t",
 }
 
+// nmStatements x nmStmtPositions: every statement form in every position that takes a statement
+// (for-header init and post included); illegal placements must be errors, never crashes.
+var nmStatements = []string{
+	"y := 1", "var y int = 1", "var y = 1", "var y int", "var y, z int", "y, z := 1, 2", "var y, z int = 1, 2", "var y, z = 1, 2",
+	"y, z := g()", "var y, z = g()", "var y, z int = g()", "y, z := lib.M()", "a, e, c := @ls()", "var a, e, c = @ls()", "y := h(1)", "var y = f()",
+	"x = 2", "x, t = 2, \"b\"", "x, x = g()", "x += 2", "x++", "x--", "s[0] = 1", "h(1)", "f()", "print(1)", "panic(\"m\")", "write(\"p\", \"d\")",
+	"break", "continue", "return 1", "y := []int{1}", "copy(s, s)", "x", "1", "if b {\n}", "for {\nbreak\n}", "switch x {\n}", "func k2() {\n}",
+}
+
+var nmStmtPositions = []string{
+	"§", "for §; x < 3; x++ {\nbreak\n}", "for ; x < 3; § {\nbreak\n}", "for §; ; {\nbreak\n}", "for §; x < 3; § {\nbreak\n}",
+	"if b {\n§\n}", "if b {\n} else {\n§\n}", "if b {\n} else if !b {\n§\n}", "for x < 3 {\n§\nbreak\n}", "switch x {\ncase 1:\n§\n}", "switch x {\ndefault:\n§\n}",
+	"func k() {\n§\n}\nk()", "func k() int {\n§\nreturn 1\n}\nprint(k())", "for i := range s {\n§\n}",
+}
+
 func nmCase(label, body string, target int) Case {
 	return Case{Space: "N", Label: label, W: WCase{Files: []WFile{{Name: "main.tsh", Data: []byte(nmPrelude + body + "\n")}, {Name: "lib.tsh", Data: []byte(nmLib)}}, Main: "main.tsh", Target: target}}
 }
@@ -332,6 +347,13 @@ func genNearMiss(emit func(Case) bool) {
 					if !emit(nmCase(fmt.Sprintf("value-position tpl#%d=%q fill=%q scope=func", ti, tpl, fill), wrapped, target)) {
 						return
 					}
+				}
+			}
+		}
+		for pi, pos := range nmStmtPositions {
+			for _, st := range nmStatements {
+				if !emit(nmCase(fmt.Sprintf("statement-position pos#%d=%q stmt=%q", pi, pos, st), strings.ReplaceAll(pos, "§", st), target)) {
+					return
 				}
 			}
 		}
